@@ -66,7 +66,7 @@ func c01ManyBridges(run *mon.Run, rng *mon.Rand) {
 func checkC01(run *mon.Run, rng *mon.Rand, thorough bool) {
 	run.Rule = "seeded random multi-bridge L1 histories (all 12 ophost message types + bank sends, valid and invalid); monitors run after every step. A history is non-trivial if >=2 bridges held funds in the same denom, >=1 withdrawal was paid and >=1 cross-bridge or forged claim was rejected; distinct by final ophost state digest"
 	run.Assumptions = []string{"bank/auth are the cosmos-sdk keepers", "rollback of rejected messages is baseapp's (the harness's) doing and is never counted as evidence"}
-	for _, c := range []string{"C01.conservation", "C01.balance_deltas_exact", "C01.supply_unchanged", "C01.other_bridges_untouched", "C01.raw_keys_attributed", "C03.accepted_claim_is_committed"} {
+	for _, c := range []string{"C01.conservation", "C01.balance_deltas_exact", "C01.supply_unchanged", "C01.other_bridges_untouched", "C01.raw_keys_attributed", "C01.withdrawal_leaves_escrow_once", "C03.accepted_claim_is_committed"} {
 		run.Declare(c, 50)
 	}
 	c01ManyBridges(run, rng.Split())
